@@ -539,7 +539,11 @@ def extract_closure(path, ctx_re, fn_name, anchor, new_sig, spec, rules, hits, n
     close = _find_close(toks, pos)
     body = toks[pos:close + 1]
     src_text = emit(body)
-    sig = [Tok(k, t, ' ') for (k, t, s_, e_) in lex(new_sig)]
+    sig = []
+    prev_end = None
+    for (k, t, s_, e_) in lex(new_sig):
+        sig.append(Tok(k, t, '' if (prev_end is not None and s_ == prev_end) else ' '))
+        prev_end = e_
     sig[0].gap = ''
     body[0].gap = ' '
     toks2 = rewrite(sig + body, rules, hits, extra)
